@@ -516,6 +516,10 @@ func reifyMergeValue(
 	case reflect.Struct:
 		sub, err := val.toConfig(opts.opts)
 		if err != nil {
+			if baseType == tRegexp {
+				// written as a string, like for a field that holds no default
+				return reifyPrimitive(opts, val, t, baseType)
+			}
 			return reflect.Value{}, raiseExpectedObject(opts.opts, val)
 		}
 		return oldValue, reifyStruct(opts.opts, old, sub)
